@@ -419,6 +419,7 @@ def monitor(rp, script, out, tasks, crash, props):
     colo_hist = {}
     idle_pending = None
     unfit_pending = None
+    prev_wp = set()
     for k, o in enumerate(out):
         it = script['iters'][k]
         slots = dict((u, sl) for u, sl in o['slots'])
@@ -546,6 +547,17 @@ def monitor(rp, script, out, tasks, crash, props):
             if places != 1:
                 viol.append(('C04', tag + ('task-lost' if places == 0 else 'task-in-two-places'),
                              'iteration %d: task %d final=%s waiting=%s' % (k, uid, final.get(uid), uid in wp)))
+        # ---- C04: priorities - a task from the wait pool is not started while a task with the same request and a
+        #      strictly higher priority, which waited just as long, goes on waiting (what fits the one fits the other)
+        shape = lambda r: (r['ranks'], r['cpr'], r['gpr'], r['lfs'], r['mem'], r['rpn'], r['colo'], r['excl'], r['env'])
+        for su in started_now:
+            if su in prev_wp and not has_app and reqs[su]['colo'] is None and reqs[su]['env'] is None:
+                for hu in sorted(wp & prev_wp):
+                    if reqs[hu]['prio'] > reqs[su]['prio'] and shape(reqs[hu]) == shape(reqs[su]) and hu not in o['state']['cancel']:
+                        viol.append(('C04', tag + 'lower-priority-task-started-first',
+                                     'iteration %d: task %d (priority %d) is started from the wait pool, task %d (priority %d, same request) keeps waiting'
+                                     % (k, su, reqs[su]['prio'], hu, reqs[hu]['prio'])))
+        prev_wp = set(wp)
         # ---- C04: an idle pilot with waiting tasks that all fit starts one in the next iteration
         if idle_pending is not None:
             if not started_now and not any(st == 'FAILED' for _, st in o['events']) and idle_pending:
